@@ -19,6 +19,9 @@ Model/Base.vos Model/Base.vok Model/Base.required_vos: Model/Base.v
 Model/Route.vo Model/Route.glob Model/Route.v.beautified Model/Route.required_vo: Model/Route.v Model/Base.vo
 Model/Route.vio: Model/Route.v Model/Base.vio
 Model/Route.vos Model/Route.vok Model/Route.required_vos: Model/Route.v Model/Base.vos
+Model/Poll.vo Model/Poll.glob Model/Poll.v.beautified Model/Poll.required_vo: Model/Poll.v Model/Base.vo
+Model/Poll.vio: Model/Poll.v Model/Base.vio
+Model/Poll.vos Model/Poll.vok Model/Poll.required_vos: Model/Poll.v Model/Base.vos
 Model/Store.vo Model/Store.glob Model/Store.v.beautified Model/Store.required_vo: Model/Store.v Model/Base.vo
 Model/Store.vio: Model/Store.v Model/Base.vio
 Model/Store.vos Model/Store.vok Model/Store.required_vos: Model/Store.v Model/Base.vos
@@ -118,6 +121,9 @@ Proofs/PC10.vos Proofs/PC10.vok Proofs/PC10.required_vos: Proofs/PC10.v Model/Mo
 Proofs/PC06.vo Proofs/PC06.glob Proofs/PC06.v.beautified Proofs/PC06.required_vo: Proofs/PC06.v Model/Mon.vo Model/MonC06.vo Model/MonC01.vo Model/MonC05.vo Model/MonC08.vo Proofs/Framework.vo Proofs/StoreLocks.vo Proofs/StorePromises.vo Proofs/StoreCallbacks.vo Proofs/Discipline.vo Proofs/SysInv.vo Proofs/Eqb.vo Proofs/PC16.vo Proofs/PC05.vo Proofs/PC01.vo Proofs/PC08.vo
 Proofs/PC06.vio: Proofs/PC06.v Model/Mon.vio Model/MonC06.vio Model/MonC01.vio Model/MonC05.vio Model/MonC08.vio Proofs/Framework.vio Proofs/StoreLocks.vio Proofs/StorePromises.vio Proofs/StoreCallbacks.vio Proofs/Discipline.vio Proofs/SysInv.vio Proofs/Eqb.vio Proofs/PC16.vio Proofs/PC05.vio Proofs/PC01.vio Proofs/PC08.vio
 Proofs/PC06.vos Proofs/PC06.vok Proofs/PC06.required_vos: Proofs/PC06.v Model/Mon.vos Model/MonC06.vos Model/MonC01.vos Model/MonC05.vos Model/MonC08.vos Proofs/Framework.vos Proofs/StoreLocks.vos Proofs/StorePromises.vos Proofs/StoreCallbacks.vos Proofs/Discipline.vos Proofs/SysInv.vos Proofs/Eqb.vos Proofs/PC16.vos Proofs/PC05.vos Proofs/PC01.vos Proofs/PC08.vos
+Proofs/PC18.vo Proofs/PC18.glob Proofs/PC18.v.beautified Proofs/PC18.required_vo: Proofs/PC18.v Model/Poll.vo
+Proofs/PC18.vio: Proofs/PC18.v Model/Poll.vio
+Proofs/PC18.vos Proofs/PC18.vok Proofs/PC18.required_vos: Proofs/PC18.v Model/Poll.vos
 Props/C09.vo Props/C09.glob Props/C09.v.beautified Props/C09.required_vo: Props/C09.v Model/Mon.vo Model/MonC09.vo Proofs/StoreLocks.vo Proofs/Discipline.vo Proofs/SysInv.vo Proofs/PC09.vo
 Props/C09.vio: Props/C09.v Model/Mon.vio Model/MonC09.vio Proofs/StoreLocks.vio Proofs/Discipline.vio Proofs/SysInv.vio Proofs/PC09.vio
 Props/C09.vos Props/C09.vok Props/C09.required_vos: Props/C09.v Model/Mon.vos Model/MonC09.vos Proofs/StoreLocks.vos Proofs/Discipline.vos Proofs/SysInv.vos Proofs/PC09.vos
@@ -154,6 +160,9 @@ Props/C06.vos Props/C06.vok Props/C06.required_vos: Props/C06.v Model/Mon.vos Mo
 Props/C19.vo Props/C19.glob Props/C19.v.beautified Props/C19.required_vo: Props/C19.v Model/Route.vo Model/Coro.vo
 Props/C19.vio: Props/C19.v Model/Route.vio Model/Coro.vio
 Props/C19.vos Props/C19.vok Props/C19.required_vos: Props/C19.v Model/Route.vos Model/Coro.vos
+Props/C18.vo Props/C18.glob Props/C18.v.beautified Props/C18.required_vo: Props/C18.v Model/Poll.vo Proofs/PC18.vo
+Props/C18.vio: Props/C18.v Model/Poll.vio Proofs/PC18.vio
+Props/C18.vos Props/C18.vok Props/C18.required_vos: Props/C18.v Model/Poll.vos Proofs/PC18.vos
 Props/C15.vo Props/C15.glob Props/C15.v.beautified Props/C15.required_vo: Props/C15.v Gen/Status.vo Spec/Front15.vo Model/Coro.vo
 Props/C15.vio: Props/C15.v Gen/Status.vio Spec/Front15.vio Model/Coro.vio
 Props/C15.vos Props/C15.vok Props/C15.required_vos: Props/C15.v Gen/Status.vos Spec/Front15.vos Model/Coro.vos
